@@ -9,10 +9,13 @@ HOOKS = {
     'add_only': True,
 }
 ENGINES = [
-    {'name': 'hypothesis', 'path': 'vlib/runner.py', 'serves_properties': [],
+    {'name': 'hypothesis', 'path': 'vlib/runner.py',
+     'serves_properties': ['C%02d' % i for i in range(1, 21)],
      'kind_free_text': 'Hypothesis 6.168 @given over JSON-able case specs, seeded from VERIF_SEED, sharded over 16 '
                        'processes, root-cause bucketing, time-capped shrinking to a replay file'},
-    {'name': 'exhaustive-enumeration', 'path': 'vlib/runner.py', 'serves_properties': [],
+    {'name': 'exhaustive-enumeration', 'path': 'vlib/runner.py',
+     'serves_properties': ['C01', 'C02', 'C03', 'C05', 'C06', 'C07', 'C08', 'C09', 'C10', 'C11', 'C12', 'C14', 'C15',
+                           'C16', 'C17', 'C18', 'C19', 'C20'],
      'kind_free_text': 'itertools enumeration of small finite sub-domains, sharded by stride over processes'},
 ]
 NOTES = ('All checks: ./check CNN quick|thorough ; replay: ./check CNN --replay <path>. Exit 0 = held, 1 = VIOLATION '
